@@ -290,7 +290,7 @@ fn main() {
     }
     for id in 0..args.n {
         let mut rc = r.fork();
-        net_case(&mut rc, id, &args.tier, &mut out);
+        guard(id, &mut out, |out| net_case(&mut rc, id, &args.tier, out));
         if out.len() > 1 << 20 {
             print!("{}", out);
             out.clear();
